@@ -215,6 +215,20 @@ class St:
             new = cur.intersect(cond[2]) if truth else cur.minus(cond[2])
             if new.is_empty():
                 return []
+            a = cond[1]
+            if a[0] == "fdiv":
+                # constrain the underlying atom instead:  fdiv(k*x+d, c) in [lo,hi]  <=>
+                # k*x+d in [c*lo, c*hi+c-1]
+                sa = a[1].single_atom()
+                if sa and sa[1] > 0:
+                    x, kk, d = sa
+                    c = a[2]
+                    base = []
+                    for lo, hi in new.iv:
+                        blo = -INF if lo == -INF else ceil_div(c * lo - d, kk)
+                        bhi = INF if hi == INF else (c * hi + c - 1 - d) // kk
+                        base.append((blo, bhi))
+                    return self.assume(("in", x, IntSet(base)), True)
             s = self.copy()
             s.pc.sets[cond[1]] = new
             return [s]
@@ -348,7 +362,11 @@ def bv_of(st, v):
         if a[0] == "sext":
             inner, m = a[1], a[2]
             return tuple(((inner, m - 1) if i >= m else (inner, i)) for i in range(w - 1, -1, -1))
-        aw = atom_width(st, a)
+        nat = natural_range(a)
+        if nat.min() >= 0 and nat.max() != INF:
+            aw = max(1, int(nat.max()).bit_length())      # stable (independent of the path condition)
+        else:
+            aw = atom_width(st, a)
         if aw is not None and aw <= w:
             return tuple((0 if i >= aw else (a, i)) for i in range(w - 1, -1, -1))
     # general non-negative linear value: introduce a value atom
@@ -382,6 +400,11 @@ def bv_to_lin(st, v):
         if all(c == (a, m - 1 - j) for j, c in enumerate(rest)):
             aw = atom_width(st, a)
             if aw is not None and aw <= m and (not v.s or m < w):
+                nat = natural_range(a).max()
+                if v.s and i > 0 and nat != INF and int(nat).bit_length() == m and a in st.pc.sets and cell_const(st, (a, m - 1)) == 0:
+                    # the path condition has decided the field's top bit to be 0 and the upper
+                    # bits are 0: on this path the value equals the sign extension
+                    return Lin.atom(("sext", a, m, -(1 << (m - 1)), (1 << (m - 1)) - 1))
                 return Lin.atom(a)
     # sign extension: (a,m-1) repeated, then (a,m-1) ... (a,0)
     if v.s and isinstance(cells[0], tuple):
@@ -515,6 +538,7 @@ class Interp:
         self.call_stack = []
         self.leaf_calls = {}   # def -> list of (arg values, st)
         self.loop_limit = 64
+        self.genv_stack = [None]
 
     # ---- cells ------------------------------------------------------------------------------
     def new_cell(self, st, v=UNINIT):
@@ -671,7 +695,7 @@ class Interp:
             if isinstance(old, VClosure):
                 fs = list(old.upvars)
                 fs[i] = self.update(st, fs[i], path[1:], val)
-                return VClosure(old.defn, fs)
+                return VClosure(old.defn, fs, old.genv)
             if isinstance(old, VUninit) and len(path) == 1:
                 raise Unanalysable("field write into uninit")
             raise Unanalysable("update field of %r" % (old,))
@@ -698,6 +722,15 @@ class Interp:
         k = t["k"]
         if "fn" in c:
             return VFn(c["fn"])
+        if "uneval" in c:
+            g = self.genv_stack[-1] or {}
+            v = g.get(c["uneval"])
+            if v is not None and "const" in v and isinstance(v["const"], int):
+                if k == "int":
+                    return mk_const(v["const"], t["w"], t["s"])
+                if k == "bool":
+                    return VBool(bool(v["const"]))
+            raise Unanalysable("unevaluated constant %s" % c["uneval"])
         if k == "int":
             return mk_const(c["int"], t["w"], t["s"])
         if k == "char":
@@ -771,7 +804,7 @@ class Interp:
             if isinstance(k, dict) and "adt" in k:
                 return VAdt(k["adt"], k["variant"], ops)
             if isinstance(k, dict) and "closure" in k:
-                return VClosure(k["closure"], ops)
+                return VClosure(k["closure"], ops, self.genv_stack[-1])
             if isinstance(k, dict) and "array" in k:
                 return VList(ops)
             raise Unanalysable("aggregate %r" % (k,))
@@ -1055,9 +1088,10 @@ class Interp:
         raise Unanalysable("cast %s" % kind)
 
     # ---- execution --------------------------------------------------------------------------
-    def exec_fn(self, st, body, args):
+    def exec_fn(self, st, body, args, genv=None):
         """-> list of (st, retval)"""
         self.visited_bodies.add(body["def"])
+        self.genv_stack.append(genv)
         if self.depth > 40:
             raise Unanalysable("call depth (recursion?) at " + body["def"])
         self.depth += 1
@@ -1086,6 +1120,7 @@ class Interp:
         finally:
             self.depth -= 1
             self.call_stack.pop()
+            self.genv_stack.pop()
 
     def split_states(self, st, ns):
         if ns.fact is not None:
@@ -1277,19 +1312,29 @@ class Interp:
             if b["kind"] == "Closure" and r is not None:
                 # Fn*::call*(self, (args,)) on a local closure: unpack the argument tuple
                 return self.call_closure_body(st, b, args[0], args[1], ctx)
-            return self.call_local(st, b, args, ctx)
+            return self.call_local(st, b, args, ctx, target)
         h = self.ext.get(key) or self.ext.get(callee["def"])
         if h is None:
             # trait-method call on an abstract callable value?
             h = self.ext.get("__default__")
         return h(self, st, callee, target, args, ctx)
 
-    def call_local(self, st, b, args, ctx):
+    def call_local(self, st, b, args, ctx, target=None):
         if not self.inline_leaves and self.is_leaf(b):
             args = [self.norm(st, a) for a in args]
             self.leaf_calls.setdefault(b["def"], []).append((tuple(args), st))
             return [(st, self.leaf_app(st, b, args))]
-        return self.exec_fn(st, b, args)
+        genv = None
+        if b.get("generics") and target is not None:
+            ga = target.get("args") or []
+            if len(ga) == len(b["generics"]):
+                genv = dict(zip(b["generics"], ga))
+                outer = self.genv_stack[-1] or {}
+                for n, v in list(genv.items()):
+                    # arguments that are themselves parameters of the caller
+                    if "const" in v and isinstance(v["const"], str) and v["const"] in outer:
+                        genv[n] = outer[v["const"]]
+        return self.exec_fn(st, b, args, genv)
 
     def leaf_app(self, st, b, args, extra=()):
         rt = b["locals"][0]
@@ -1323,7 +1368,7 @@ class Interp:
             selfarg = cv
         else:
             selfarg = cvv
-        return self.exec_fn(st, b, [selfarg] + items)
+        return self.exec_fn(st, b, [selfarg] + items, cvv.genv if isinstance(cvv, VClosure) else None)
 
     def apply_callable(self, st, fv, args, ctx):
         """call an abstract callable value (fn item, closure, parser) with positional args"""
@@ -1528,6 +1573,10 @@ class Interp:
 
     def bytes_all_ascii(self, st, v):
         items = None
+        if isinstance(v, VSlice) and v.len.is_const() and v.len.c == 0:
+            return True
+        if isinstance(v, VSeq) and v.term == ("empty",):
+            return True
         if isinstance(v, VList):
             items = v.items
         elif isinstance(v, VElems):
